@@ -25,6 +25,7 @@ from typing import Iterable
 VERIF = os.path.dirname(os.path.dirname(os.path.dirname(os.path.abspath(__file__))))
 NWORKERS = int(os.environ.get("LV_WORKERS", "16"))
 CASE_TIMEOUT_S = 20
+STUCK_S = 120
 
 
 class CaseTimeout(BaseException):
@@ -171,7 +172,8 @@ def triage_known(
     for entry in load_known(prop.id):
         status = entry.get("status", "known")
         try:
-            res = run_case(prop, entry["witness"], frozenset())
+            runner = run_case_guarded if prop.hang_is_violation else run_case
+            res = runner(prop, entry["witness"], frozenset())
             buckets = [f.bucket for f in res.failures]
         except CaseTimeout:
             buckets = ["hang"]
@@ -201,6 +203,65 @@ def run_case(prop: Prop, case: Any, disabled: frozenset[str]) -> Result:
         return prop.check(case, disabled)
     finally:
         signal.alarm(0)
+
+
+def run_case_guarded(prop: Prop, case: Any, disabled: frozenset[str], secs: int | None = None) -> Result:
+    """run_case() in a forked child that the parent can kill.
+
+    SIGALRM only interrupts Python code: a C loop that never returns to the interpreter (a linear
+    scan of range(10**18), say) ignores the watchdog, so where non-termination is part of the
+    property the case runs in a child with a hard deadline.  Raises CaseTimeout on a hang."""
+    global CASE_TIMEOUT_S
+    import pickle
+
+    secs = CASE_TIMEOUT_S if secs is None else secs
+    rfd, wfd = os.pipe()
+    pid = os.fork()
+    if pid == 0:  # child
+        code = 0
+        try:
+            os.close(rfd)
+            CASE_TIMEOUT_S = secs
+            try:
+                payload = ("ok", run_case(prop, case, disabled))
+            except CaseTimeout:
+                payload = ("timeout", None)
+            except BaseException:  # noqa: BLE001
+                payload = ("error", traceback.format_exc()[-3000:])
+            with os.fdopen(wfd, "wb") as out:
+                pickle.dump(payload, out)
+        except BaseException:  # noqa: BLE001
+            code = 1
+        finally:
+            os._exit(code)
+    os.close(wfd)
+    import select
+
+    chunks: list[bytes] = []
+    end = time.time() + secs + 15
+    with os.fdopen(rfd, "rb", buffering=0) as inp:
+        while True:
+            left = end - time.time()
+            if left <= 0:
+                os.kill(pid, signal.SIGKILL)
+                os.waitpid(pid, 0)
+                raise CaseTimeout()
+            ready, _, _ = select.select([inp], [], [], min(left, 1.0))
+            if ready:
+                data = inp.read(1 << 16)
+                if not data:
+                    break
+                chunks.append(data)
+    os.waitpid(pid, 0)
+    try:
+        kind, value = pickle.loads(b"".join(chunks))
+    except Exception as err:  # noqa: BLE001
+        raise RuntimeError(f"guarded case: child died without a result ({err})") from err
+    if kind == "timeout":
+        raise CaseTimeout()
+    if kind == "error":
+        raise RuntimeError("guarded case failed in the child:\n" + value)
+    return value
 
 
 class _Acc:
@@ -346,8 +407,39 @@ def _fan_out(
             procs.append((i, pr, out))
         parts: list[dict[str, Any]] = []
         ok = True
+        # A worker whose crumb (the case it is running) has not changed for STUCK_S seconds is stuck
+        # in code the SIGALRM watchdog cannot interrupt: kill it and report its case as a timeout.
+        stuck: dict[int, Any] = {}
+        while any(pr.is_alive() for _, pr, _ in procs):
+            time.sleep(0.5)
+            now = time.time()
+            for i, pr, out in procs:
+                if not pr.is_alive() or os.path.exists(out):
+                    continue
+                crumb = os.path.join(tmp, f"crumb{i}.json")
+                try:
+                    age = now - os.path.getmtime(crumb)
+                except OSError:
+                    continue
+                if age > STUCK_S:
+                    try:
+                        case = json.load(open(crumb))
+                    except Exception:  # noqa: BLE001
+                        case = None
+                    pr.kill()
+                    pr.join()
+                    stuck[i] = case
+                    print(f"worker {i} killed after {int(age)} s on one case (watchdog ignored)", file=sys.stderr,
+                          flush=True)
         for i, pr, out in procs:
             pr.join()
+            if i in stuck:
+                parts.append({"idx": i, "cases": 1, "evaluations": 0, "nontrivial": set(), "labels": {},
+                              "excluded": {}, "buckets": {}, "samples": [],
+                              "timeouts": [stuck[i]] if stuck[i] is not None else [],
+                              "n_timeouts": 1, "harness_errors": [], "extra": {"workers_killed": 1},
+                              "cut_short": True})
+                continue
             if not os.path.exists(out):
                 ok = False
                 crumb = os.path.join(tmp, f"crumb{i}.json")
@@ -547,19 +639,15 @@ def run_property(prop_id: str, tier: str, seed: int) -> int:
     # hang confirmation (only where non-termination is part of the property)
     inconclusive = n_timeouts
     if prop.hang_is_violation and timeouts:
-        global CASE_TIMEOUT_S
         for case in timeouts[:3]:
             hung = 0
-            old = CASE_TIMEOUT_S
-            CASE_TIMEOUT_S = 60
-            try:
-                for _ in range(3):
-                    try:
-                        run_case(prop, case, disabled)
-                    except CaseTimeout:
-                        hung += 1
-            finally:
-                CASE_TIMEOUT_S = old
+            for _ in range(3):
+                try:
+                    run_case_guarded(prop, case, disabled, 60)
+                except CaseTimeout:
+                    hung += 1
+                except RuntimeError:
+                    break
             if hung == 3:
                 buckets.setdefault(
                     "hang",
@@ -671,7 +759,8 @@ def replay(path: str) -> int:
     prop.setup_worker()
     bucket = doc.get("bucket", "")
     try:
-        res = run_case(prop, doc["case"], frozenset())
+        runner = run_case_guarded if prop.hang_is_violation else run_case
+        res = runner(prop, doc["case"], frozenset())
         fails = res.failures
     except CaseTimeout:
         fails = [Failure("termination", "hang", "")]
